@@ -90,15 +90,29 @@ def generate(report):
         body = body.strip()
         # body is `{ match ... { .. } .into() }` : translate the match, result u128
         m = re.match(r"\{\s*(match.*\})\s*\.into\(\)\s*\}$", body, re.S)
-        if not m:
-            raise Untranslatable("From<i64> shape changed")
-        e = Parser(lex(m.group(1))).expr()
-        ft = FnTranslator(ctx, "from_i64")
-        v, ty, ok = ft.ex(e, {"value": ("value", "i64")}, "u128")
-        if ty != "u128":
-            raise Untranslatable("From<i64> type %s" % ty)
-        out += "Definition from_i64_u128 (value : Z) : Z :=\n  %s.\n\n" % v
-        out += "Definition from_i64_u128_ok (value : Z) : bool :=\n  %s.\n\n" % ok
+        if m:
+            e = Parser(lex(m.group(1))).expr()
+            ft = FnTranslator(ctx, "from_i64")
+            v, ty, ok = ft.ex(e, {"value": ("value", "i64")}, "u128")
+            if ty != "u128":
+                raise Untranslatable("From<i64> type %s" % ty)
+            out += "Definition from_i64_u128 (value : Z) : Z :=\n  %s.\n\n" % v
+            out += "Definition from_i64_u128_ok (value : Z) : bool :=\n  %s.\n\n" % ok
+        else:
+            # any other body that hands a u128 to From<u128> (`E.into()` as the value, `return E.into();` in branches): the
+            # `.into()`s are dropped and the rest is translated as a function i64 -> u128
+            b2 = re.sub(r"//[^\n]*", "", body)
+            n_into = len(re.findall(r"\.into\(\)", b2))
+            b3 = re.sub(r"return\s+\((.*?)\)\.into\(\)\s*;", r"return \1;", b2, flags=re.S)
+            b3 = re.sub(r"return\s+([A-Za-z_][A-Za-z_0-9]*)\.into\(\)\s*;", r"return \1;", b3)
+            b3 = re.sub(r"\(([^()]*(?:\([^()]*\)[^()]*)*)\)\.into\(\)(\s*\}\s*)$", r"\1\2", b3, flags=re.S)
+            b3 = re.sub(r"([A-Za-z_][A-Za-z_0-9]*)\.into\(\)(\s*\}\s*)$", r"\1\2", b3)
+            if ".into()" in b3 or n_into == 0:
+                raise Untranslatable("From<i64> shape changed")
+            b3 = re.sub(r"\bu128::from\(([^()]*)\)", r"(\1 as u128)", b3)
+            b3 = re.sub(r"\bi128::from\(([^()]*)\)", r"(\1 as i128)", b3)
+            synth = "fn from_i64_u128(value: i64) -> u128 %s\n" % b3
+            out += translate_fn(ctx, synth, "from_i64_u128", "from_i64_u128", None, 0, [])
     except Untranslatable as ex:
         report.append(("BFieldGen", "from_i64", str(ex)))
     write_if_changed(os.path.join(OUT, "BFieldGen.v"), out)
